@@ -1636,6 +1636,35 @@ def fam_invalid_nocrash(rng):
     return Case("%s %s" % (op, lay.tokens()), check, {"mutation": what})
 
 
+def fam_print_nocrash(rng):
+    """C12: printing (Content::tostring, what repr shows) a layout, valid or with one broken rule, never terminates the
+    process or hangs; numbers, booleans, complex numbers, dates and time differences of any magnitude included"""
+    k = rng.random()
+    if k < 0.25:
+        kind, unit = rng.choice(["M8", "m8"]), rng.choice(["s", "ms", "us", "ns", "D", "h", "m"])
+        n = rng.choice([0, 1, 3, 10, 11, 14])
+        extremes = [0, 1, -1, 86399, -86401, 2 ** 31, -2 ** 31 - 1, 253402300800, 2 ** 55, -2 ** 55, 2 ** 62, -2 ** 62, 2 ** 63 - 1, -2 ** 63]
+        buf = [rng.choice(extremes) if rng.random() < 0.5 else rng.randint(-10 ** 6, 10 ** 10) for _ in range(n)]
+        lay = L.NP("%s[%s]" % (kind, unit), buf)
+        if rng.random() < 0.4 and n:
+            cut = sorted(rng.randint(0, n) for _ in range(2))
+            lay = L.LO("64", [0] + cut + [n], lay)
+        what = "dates and time differences"
+    elif k < 0.6:
+        lay, what = _gen_invalid(rng)
+        if lay is None:
+            return None
+    else:
+        T = L.gen_type(rng, rng.randint(0, 3), allow_union=True)
+        vals = [L.gen_value(rng, T) for _ in range(L.toplen(rng, 0, 4) if rng.random() < 0.8 else rng.randint(9, 14))]
+        lay = L.Enc(rng).encode(vals, T)
+        what = "valid layout"
+
+    def check(r):
+        return None      # crashes and hangs are caught by the runner
+    return Case("tostring %s" % lay.tokens(), check, {"what": what})
+
+
 def _gen_pyvalue(rng, depth):
     r = rng.random()
     if depth <= 0 or r < 0.45:
@@ -2103,6 +2132,7 @@ FAMILIES = {
     "union_shared": (fam_union_shared, ["C02", "C08"]),
     "union_windows": (fam_union_windows, ["C02", "C08"]),
     "record_scalar": (fam_record_scalar, ["C05", "C09", "C10"]),
+    "print_nocrash": (fam_print_nocrash, ["C12"]),
     "fields": (fam_fields, ["C01", "C10"]),
     "field_slices": (fam_field_slices, ["C10"]),
     "setitem_field": (fam_setitem_field, ["C10"]),
